@@ -216,6 +216,22 @@ CHECKS = {
     design="6/C19", technique="TLA+ relation + constructive reference + implementation-shaped companion (TLC model checking), enumerated-universe replay and random records with TLC trace validation",
     note=TRUSTED + "The announced start may be 0- or 1-based; row count is free (only non-overlap is required); region kinds reached "
          "are enforced per run (exit 2 if one is missing)."),
+ "C13": dict(
+    text=("Refine.tla states what refinement of profile hits must satisfy: sorted by position; no two kept hits overlapping beyond "
+          "the documented 20% margin; every output an input hit or the spanning best-score merge of same-profile fragments within 1.5 "
+          "profile lengths; every dropped hit justified by a kept not-lower-scoring overlapping hit, absorption into a kept merge, or "
+          "incompleteness with the documented fallbacks. It also states the documented ranking of hmmer.remove_overlapping and the "
+          "competition between equivalent profiles (filter_results, filter_result_multiple). TLC (Refine_MC) enumerates all sets of "
+          "<= 3 (thorough <= 4) hits over tie-rich universes for the three call sites, shows the relations satisfiable by constructive "
+          "references, shows the repaired implementation-shaped greedy model order-free, and exhibits the set-order, chained-replacement, "
+          "shrinking-merge and last-domain-only defects on the unrepaired shape as negative controls. Every enumerated input plus seeded "
+          "random larger ones is replayed into the real functions for every permutation of the input list, in child interpreters under "
+          "fixed PYTHONHASHSEED values and with scheduled object hashes. TLC (Refine_Trace) decides every distinct result against the "
+          "relations, and order independence as equality of all results of one input."),
+    design="6/C13", technique="TLA+ spec (Refine.tla) + TLC model checking with negative controls + TLC trace validation of real calls under permutations / hash seeds",
+    note=TRUSTED + "Sandwiches: a score tie justifies either choice; for equal starts 'overlap' between two kept hits is demanded only "
+         "under every reading; results are compared as bags. Not covered: the HMMER search, filter_nonterminal_docking_domains. One "
+         "known finding remains (P14: a hit whose replacer is itself dropped; needs a non-greedy pass)."),
 }
 CHECKS_END = None
 NOT_BUILT = "not built yet (work in progress, see DESIGN.md section 10 build order)"
